@@ -188,8 +188,13 @@ def binop(sx, op, a, b):
         return VVal("slv", sym.to_int(wa) + sym.to_int(wb), ba * P2(wb) + bb)
     if op in ("=", "/=", "<", "<=", ">", ">="):
         if _is_num(a) and (b.kind == a.kind or b.kind == "integer"):
+            # numeric_std: "<"(L: UNSIGNED; R: NATURAL) etc. -- a negative integer violates the subtype of the parameter
+            if a.kind == "unsigned" and b.kind == "integer" and not sx.branch(b.val >= 0):
+                raise TypeError_("natural operand is negative")
             x, y = a.number(), (b.number() if _is_num(b) else b.val)
         elif a.kind == "integer" and _is_num(b):
+            if b.kind == "unsigned" and not sx.branch(a.val >= 0):
+                raise TypeError_("natural operand is negative")
             x, y = a.val, b.number()
         elif a.kind == "integer" and b.kind == "integer":
             x, y = a.val, b.val
